@@ -53,35 +53,39 @@ def optSign (cs : List Char) : Bool × List Char :=
   | '+' :: r => (false, r)
   | r => (false, r)
 
+/-- `(\d+\.\d*)|(\.\d+)` → (integer digits, fraction digits, rest) -/
+def scanMantissa (r0 : List Char) : Option (List Char × List Char × List Char) :=
+  let (ip, r1) := spanDigits r0
+  if !ip.isEmpty then
+    match r1 with
+    | '.' :: r2 => let (fp, r3) := spanDigits r2; some (ip, fp, r3)
+    | _ => none
+  else
+    match r1 with
+    | '.' :: r2 =>
+        let (fp, r3) := spanDigits r2
+        if fp.isEmpty then none else some ([], fp, r3)
+    | _ => none
+
+/-- `([eE][\+\-]?\d+)?`, taken only if complete → (exponent, rest) -/
+def scanExponent (r3 : List Char) : Int × List Char :=
+  match r3 with
+  | c :: r4 =>
+      if c == 'e' || c == 'E' then
+        let (eneg, r5) := optSign r4
+        let (ed, r6) := spanDigits r5
+        if ed.isEmpty then (0, r3) else ((if eneg then -(digitsVal ed : Int) else (digitsVal ed : Int)), r6)
+      else (0, r3)
+  | [] => (0, r3)
+
 /-- `[\-\+]?((\d+\.\d*)|(\.\d+))([eE][\+\-]?\d+)?` → (exact value, rest); the value is `none` when the decimal exponent is beyond
 anything a double can hold (the code gets `inf`/`0.0` from `float()`; the model does not describe those) -/
 def scanFloat (cs : List Char) : Option (Option Rat × List Char) :=
   let (neg, r0) := optSign cs
-  let (ip, r1) := spanDigits r0
-  let mant : Option (List Char × List Char × List Char) :=
-    if !ip.isEmpty then
-      match r1 with
-      | '.' :: r2 => let (fp, r3) := spanDigits r2; some (ip, fp, r3)
-      | _ => none
-    else
-      match r1 with
-      | '.' :: r2 =>
-          let (fp, r3) := spanDigits r2
-          if fp.isEmpty then none else some ([], fp, r3)
-      | _ => none
-  match mant with
+  match scanMantissa r0 with
   | none => none
   | some (ip, fp, r3) =>
-    -- optional exponent, taken only if complete
-    let (e, rest) : Int × List Char :=
-      match r3 with
-      | c :: r4 =>
-          if c == 'e' || c == 'E' then
-            let (eneg, r5) := optSign r4
-            let (ed, r6) := spanDigits r5
-            if ed.isEmpty then (0, r3) else ((if eneg then -(digitsVal ed : Int) else (digitsVal ed : Int)), r6)
-          else (0, r3)
-      | [] => (0, r3)
+    let (e, rest) := scanExponent r3
     let m : Rat := (digitsVal (ip ++ fp) : Nat)
     let scale : Int := e - fp.length
     if scale.natAbs > 5000 then some (none, rest) else
